@@ -32,6 +32,10 @@ func ErrSeeds() []*Grammar {
 		"S: S A | a ; A: error b | b",
 		"S: A B c ; A: a | a a ; B: error | b",
 		"S: A B ; A: empty ; B: b | error c",
+		// the error alternative lives in a second, non-adjacent rule for the same head (a section of recovery rules)
+		"S: Stmts ; Stmts: Stmt | Stmts Stmt ; Stmt: a semi | X semi ; X: b ; Stmt: error semi",
+		"S: a A b ; A: a ; B: b ; A: error ; S: B",
+		"S: A | S A ; A: a b ; S: error b",
 	}
 	var out []*Grammar
 	for _, s := range specs {
